@@ -26,6 +26,13 @@ type GenCount int64
 type GenRatio float32
 type GenList []string
 type GenSetT map[string]struct{}
+type GenGain complex64
+
+// GenAddr is a text-unmarshalable type of slice kind (like net.IP)
+type GenAddr []byte
+
+func (a *GenAddr) UnmarshalText(b []byte) error { *a = append((*a)[:0], b...); return nil }
+func (a GenAddr) MarshalText() ([]byte, error)  { return []byte(a), nil }
 
 // leaf kinds
 const (
@@ -46,6 +53,16 @@ const (
 	GLMapNamedVals // map[string]GenLevel
 	GLPtrNamedString
 	GLMapNamedKeys // map[GenName]GenName
+	GLPtrStrings   // *[]string
+	GLPtrMap       // *map[string]string
+	GLPtrDuration  // *time.Duration
+	GLPtrNamedUint8
+	GLPtrBool
+	GLPtrFloat64
+	GLPtrComplex128
+	GLAddr         // GenAddr
+	GLNamedComplex // GenGain
+	GLDurations    // []time.Duration
 )
 
 type GenLeaf struct {
@@ -127,6 +144,30 @@ func genNamedShapes() []genShape {
 		}{}), leaves: []GenLeaf{{Path: []string{"X"}, Kind: GLNamedString}, {Path: []string{"Y"}, Kind: GLNamedUint8}}},
 	}
 }
+
+// genPtrShapes: user-declared pointers to every kind of leaf, and a few leaf types with unusual
+// kind/method combinations.
+func genPtrShapes() []genShape {
+	return []genShape{
+		{name: "*[]string", t: reflect.TypeOf((*[]string)(nil)), leaves: []GenLeaf{{Kind: GLPtrStrings}}},
+		{name: "*map[string]string", t: reflect.TypeOf((*map[string]string)(nil)), leaves: []GenLeaf{{Kind: GLPtrMap}}},
+		{name: "*Duration", t: reflect.TypeOf((*time.Duration)(nil)), leaves: []GenLeaf{{Kind: GLPtrDuration}}},
+		{name: "*Level", t: reflect.TypeOf((*GenLevel)(nil)), leaves: []GenLeaf{{Kind: GLPtrNamedUint8}}},
+		{name: "*bool", t: reflect.TypeOf((*bool)(nil)), leaves: []GenLeaf{{Kind: GLPtrBool}}},
+		{name: "*float64", t: reflect.TypeOf((*float64)(nil)), leaves: []GenLeaf{{Kind: GLPtrFloat64}}},
+		{name: "*complex128", t: reflect.TypeOf((*complex128)(nil)), leaves: []GenLeaf{{Kind: GLPtrComplex128}}},
+		{name: "Addr", t: reflect.TypeOf(GenAddr(nil)), leaves: []GenLeaf{{Kind: GLAddr}}},
+		{name: "Gain", t: reflect.TypeOf(GenGain(0)), leaves: []GenLeaf{{Kind: GLNamedComplex}}},
+		{name: "[]Duration", t: reflect.TypeOf([]time.Duration(nil)), leaves: []GenLeaf{{Kind: GLDurations}}},
+		{name: "int8", t: reflect.TypeOf(int8(0)), leaves: []GenLeaf{{Kind: GLInt8}}},
+	}
+}
+
+// GenNumPtrShapes is the size of the pointer-shape alphabet.
+func GenNumPtrShapes() int { return len(genPtrShapes()) }
+
+// GenStructPtr is GenStruct over the pointer-shape alphabet.
+func GenStructPtr(shapes []int) (GenType, bool) { return genStruct(genPtrShapes(), shapes) }
 
 // GenNumShapes is the size of the field-shape alphabet.
 func GenNumShapes() int { return len(genShapes()) }
@@ -262,6 +303,25 @@ func GenLeafIs(v reflect.Value, kind int, n int8) bool {
 	case GLMapNamedKeys:
 		e := v.MapIndex(reflect.ValueOf(GenName("k")))
 		return v.Len() == 1 && e.IsValid() && e.String() == "v"
+	case GLPtrStrings:
+		return v.Len() == 2 && v.Index(0).String() == "a" && v.Index(1).String() == "b"
+	case GLPtrMap:
+		e := v.MapIndex(reflect.ValueOf("k"))
+		return v.Len() == 1 && e.IsValid() && e.String() == "v"
+	case GLPtrDuration:
+		return v.Int() == int64(3*time.Second)
+	case GLPtrNamedUint8:
+		return v.Uint() == 7
+	case GLPtrBool:
+		return v.Bool()
+	case GLPtrFloat64:
+		return v.Float() == 1.5
+	case GLPtrComplex128, GLNamedComplex:
+		return v.Complex() == complex(1, 2)
+	case GLAddr:
+		return v.Len() == 3 && v.Index(0).Uint() == 'a'
+	case GLDurations:
+		return v.Len() == 2 && v.Index(0).Int() == int64(time.Second) && v.Index(1).Int() == int64(2*time.Second)
 	}
 	return false
 }
@@ -298,8 +358,24 @@ func GenText(kind int, n string) string {
 		return "a"
 	case GLMapNamedVals:
 		return "k:7"
-	case GLMapNamedKeys:
+	case GLMapNamedKeys, GLPtrMap:
 		return "k:v"
+	case GLPtrStrings:
+		return "a,b"
+	case GLPtrDuration:
+		return "3s"
+	case GLPtrNamedUint8:
+		return "7"
+	case GLPtrBool:
+		return "true"
+	case GLPtrFloat64:
+		return "1.5"
+	case GLPtrComplex128, GLNamedComplex:
+		return "1+2i"
+	case GLAddr:
+		return "abc"
+	case GLDurations:
+		return "1s,2s"
 	}
 	return ""
 }
